@@ -186,13 +186,14 @@ Print Assumptions C05_display_not_from_tail.
 
 (** (2) pending values -> raw occurrence, ONE theorem through [resolve_pending]/[react_core]
     ([verify_num_args], delimiter block, [mt_remove]/[start_custom_arg], [push_arg_values]): closing
-    the occurrence [earlier ++ t] of a Set/Append argument whose trailing index lies at or before
+    the occurrence [earlier ++ t] of an argument whose action stores given values ([stores_given]: Set / Append, or
+    SetTrue / SetFalse -- which action.rs allows to take `--flag=value` / [num_args(0..=1)]) whose trailing index lies at or before
     the first value of [t] leaves an entry whose LAST value group is [earlier] (delimited as usual)
     followed by [t] in its stored form [tail_form] (= [t] itself with
     [dont_delimit_trailing_values] or without a declared delimiter). *)
 Theorem C05_sink_resolve : forall c st p a earlier t k st',
   find_group c (a_id a) = None ->
-  a_get_action a = ASet \/ a_get_action a = AAppend ->
+  stores_given a ->
   mt_pending (mt st) = Some p -> find_arg c (p_id p) = Some a ->
   p_raw p = earlier ++ t -> t <> [] -> p_trailing_idx p = Some k -> k <= N.of_nat (length earlier) ->
   resolve_pending c st = ROk st' ->
